@@ -291,6 +291,29 @@ theorem join_with_backtracking_wellformed (σ : Leaves) (st : Store) (fuel : Nat
   refine ⟨B.wf, B.engine, fun x => ?_⟩
   rw [B.cols x, PJoin.mem_appliedColumns, f1]
 
+/-- ... and for EVERY combination of `backtrack` / `transfer` / `require_preferred_engine`: the result is well-formed,
+lives in the target's engine or (only with `transfer=True`) in the fixed relation's database, and its columns are the two
+operands'. -/
+theorem join_with_every_option_wellformed (σ : Leaves) (st : Store) (fuel : Nat) (p : PJoin) (t : Rel) (o : Opts)
+    (hpref : o.pref = none ∨ o.pref = some p.fixed.engine)
+    (hkt : t.engine.kind = .iter) (hks : p.fixed.engine.kind = .sql)
+    (gF : Good NodeInv.triv σ p.fixed)
+    (hfix0 : p.join.resolved = true → p.join.minCols.subset p.fixed.columns = true)
+    (hwf : t.WF) (htrt : t.Truthful σ) (hpo : t.prefTargetsGood NodeInv.triv σ p.fixed.engine)
+    (hnp : t.spineNoPayload st) (hts : o.transfer = true → transferSimplify p.fixed.engine t = none)
+    (res : Res) (h : applyOp st fuel (.pj p) t o = .ok res) :
+    (res.get t).WF ∧
+      ((res.get t).engine = t.engine ∨ (o.transfer = true ∧ (res.get t).engine = p.fixed.engine)) ∧
+      (∀ x, x ∈ (res.get t).columns ↔ x ∈ p.fixed.columns ∨ x ∈ t.columns) := by
+  obtain ⟨p', hb, ⟨_, B⟩ | ⟨ht, J⟩⟩ :=
+    applyOp_pj_all_options σ st fuel p t o hpref hkt hks gF hfix0 hwf htrt hpo hnp hts res h
+  · obtain ⟨f1, _⟩ := pjBeginApply_ok p t o.pref p' _ hfix0 hb
+    refine ⟨B.wf, Or.inl B.engine, fun x => ?_⟩
+    rw [B.cols x, PJoin.mem_appliedColumns, f1]
+  · obtain ⟨f1, _⟩ := pjBeginApply_ok p t o.pref p' _ hfix0 hb
+    refine ⟨J.wf, Or.inr ⟨ht, by rw [J.engine, f1]⟩, fun x => ?_⟩
+    rw [J.cols x, PJoin.mem_appliedColumns, f1]
+
 theorem processed_trees_wellformed (σ : Leaves) (sq0 : SqlState) (h0 : sq0.payload 0 = none) (t : Rel) (fuel : Nat)
     (matAs : Option String) (s : ProcState) (reg : Nat → Option (List Row)) (hm : t.MultiIter)
     (hsql : t.SqlSrcOK σ sq0) (T : TreeInv σ reg sq0 t s) (hf : t.size ≤ fuel)
